@@ -28,7 +28,8 @@ Hdr == /\ e.ev = "hdr"
                                                tsbd |-> e.tsbd, ato |-> e.ato, snr |-> e.snr]) /\ Len(e.dur) = e.N, "scenario header")
        /\ h' = l /\ cur' = None /\ prev' = None
 
-Timeline == H.mode \in {"time", "tlnr"}
+\* multi-period scenarios (H.multi) are judged only by the clauses that do not read the first Period's timeline
+Timeline == H.mode \in {"time", "tlnr"} /\ ~H.multi
 
 Mpd == /\ e.ev = "mpd"
        /\ Clause("C02.mpd_served", e.st = 200, <<"status", e.st>>)
@@ -61,6 +62,7 @@ Mpd == /\ e.ev = "mpd"
                     /\ Clause("C02.first", (Len(E) > 0 /\ first[1] >= 0) => FirstOK(SC, first, now), <<"first", first, "now", e.now>>)
                     /\ Clause("C02.nr", (H.mode = "tlnr" /\ Len(E) > 0 /\ first[1] >= 0) => (e.hasSn /\ e.snp = first),
                               <<"startNumber_minus_snr", e.snp, "first", first>>)
+                  ELSE IF H.multi THEN TRUE
                   ELSE
                     /\ Clause("C02.template", TemplateOK(SC, e.tmplD, e.tmplTS) /\ e.hasSn /\ e.snp = <<0, 0>>,
                               <<"duration", e.tmplD, "timescale", e.tmplTS, "startNumber_minus_snr", e.snp>>)
@@ -77,7 +79,9 @@ Mpd == /\ e.ev = "mpd"
                     \* (the switch to a static MPD at the stop time is a change by design: not judged here)
                     /\ Clause("C05.pt_same_content", (TEq(prev.pt, pt) /\ prev.after = after) => prev.dig = e.dig,
                               <<"pt", e.pt, "first_changed", prev.first # first, "last_changed", prev.last # last>>)
-                    /\ Clause("C05.number_static", (H.mode = "number" /\ prev.after = after) => prev.dig = e.dig, "Number-template MPD changed")
+                    /\ Clause("C05.number_static", (H.mode = "number" /\ ~H.multi /\ prev.after = after) => prev.dig = e.dig, "Number-template MPD changed")
+                    \* C05.stop: once static, the MPD does not change any more
+                    /\ Clause("C05.static_frozen", (prev.after /\ after) => prev.dig = e.dig, "static MPD changed after the stop time")
                   ELSE TRUE
                \* publishTime = instant of the most recent change at the live edge: the availability instant of the
                \* newest listed segment (within 1 ms: xs:dateTime has ms resolution), or AST when nothing is listed
